@@ -184,7 +184,7 @@ impl v::Executor for HistExec {
 struct HStep { outs: Vec<String>, iouts: Vec<String>, rule: String, expl: Vec<String>, impl_: Vec<String>, oo: Vec<String>, val: Vec<String>, flag: String }
 
 #[derive(Clone)]
-struct HProj { steps: Vec<HStep>, generator: bool, fragment: bool, rule_suffix: usize, comment: usize, defaults: Vec<String> }
+struct HProj { steps: Vec<HStep>, force: Vec<(String, String)>, generator: bool, gen_last: bool, fragment: bool, rule_suffix: usize, comment: usize, defaults: Vec<String> }
 
 impl HProj {
     fn manifest(&self) -> String {
@@ -197,7 +197,9 @@ impl HProj {
         s.push_str(&format!("rule rsp{sfx}\n  command = link @$out.rsp $out\n  rspfile = $out.rsp\n  rspfile_content = $flag $in\n"));
         s.push_str(&format!("rule rw{sfx}\n  command = rw $flag $in -o $out\n"));
         if !self.fragment { s.push_str("rule gen\n  command = gen $in $out\n"); }
-        if self.generator { s.push_str("build build.ninja: gen build.ninja.in\n"); }
+        // the regeneration step first, or last (as CMake writes it): then the manifest is not the
+        // first file the text mentions
+        if self.generator && !self.gen_last { s.push_str("build build.ninja: gen build.ninja.in\n"); }
         for st in &self.steps {
             s.push_str("build");
             for o in &st.outs { s.push(' '); s.push_str(o); }
@@ -211,6 +213,7 @@ impl HProj {
             s.push('\n');
             if st.rule != "phony" { s.push_str(&format!("  flag = {}\n", st.flag)); }
         }
+        if self.generator && self.gen_last { s.push_str("build build.ninja: gen build.ninja.in\n"); }
         if !self.defaults.is_empty() { s.push_str("default"); for d in &self.defaults { s.push(' '); s.push_str(d); } s.push('\n'); }
         s
     }
@@ -223,6 +226,7 @@ const NHDR: usize = 3;
 fn gen_hproj(rng: &mut Rng) -> HProj {
     let n = rng.range(2, 6);
     let mut steps: Vec<HStep> = vec![];
+    let mut force: Vec<(String, String)> = vec![];
     // a source file that is ALSO declared as the output of an input-less phony step (CMake style)
     let phony_src = rng.chance(1, 4);
     if phony_src {
@@ -245,6 +249,13 @@ fn gen_hproj(rng: &mut Rng) -> HProj {
         if rng.chance(1, 4) { st.impl_.push(if !earlier.is_empty() && rng.chance(1, 2) { earlier[rng.below(earlier.len())].clone() } else { pick_src(rng) }); }
         if rng.chance(1, 4) && !earlier_any.is_empty() { st.oo.push(earlier_any[rng.below(earlier_any.len())].clone()); }
         if rng.chance(1, 6) { st.oo.push(format!("h{}", rng.below(NHDR))); }
+        // a header that is BOTH an order-only input and (through the first explicit source, if it is
+        // a source) a reported dependency of a step that reads dependencies
+        if (st.rule == "cc" || st.rule == "cl") && st.expl[0].starts_with('s') && rng.chance(1, 3) {
+            let h = format!("h{}", rng.below(NHDR));
+            if !st.oo.contains(&h) { st.oo.push(h.clone()); }
+            force.push((st.expl[0].clone(), h));
+        }
         if rng.chance(1, 8) && !earlier_any.is_empty() { st.val.push(earlier_any[rng.below(earlier_any.len())].clone()); }
         steps.push(st);
     }
@@ -258,12 +269,15 @@ fn gen_hproj(rng: &mut Rng) -> HProj {
     // flavours: plain manifest | classic generator (build.ninja: gen build.ninja.in) | a generated
     // fragment that build.ninja includes, build.ninja itself being a phony output depending on it
     let flavour = rng.below(8);
-    HProj { steps, generator: flavour < 2, fragment: flavour == 2, rule_suffix: 0, comment: 0, defaults }
+    HProj { steps, force, generator: flavour < 2, gen_last: rng.chance(1, 2), fragment: flavour == 2, rule_suffix: 0, comment: 0, defaults }
 }
 
 fn src_content(rng: &mut Rng, version: usize) -> Vec<u8> {
     let mut s = format!("v{}", version);
-    for h in 0..NHDR { if rng.chance(1, 3) { s.push_str(&format!(" #h{}", h)); } }
+    // headers in any order (the order of a step's discovered dependencies is part of what is recorded)
+    let mut hs: Vec<usize> = (0..NHDR).collect();
+    rng.shuffle(&mut hs);
+    for h in hs { if rng.chance(1, 3) { s.push_str(&format!(" #h{}", h)); } }
     if rng.chance(1, 12) { s.push_str(" #./h0"); }
     if rng.chance(1, 12) { s.push_str(" #d/../h1"); }
     if rng.chance(1, 15) { s.push_str(" #gone.h"); }
@@ -353,7 +367,13 @@ pub fn run(ctx: &mut Ctx) {
             clock += 1; ops.push(Op::W("build.ninja".into(), clock, b"rule gen\n  command = gen $in $out\nbuild build.ninja: gen build.ninja.in\n".to_vec()));
             // the .in must be newer-or-different anyway: no record yet => dirty
         }
-        for i in 0..NSRC { clock += 1; ops.push(Op::W(format!("s{}", i), clock, src_content(&mut rng, version))); }
+        for i in 0..NSRC {
+            clock += 1;
+            let mut c = src_content(&mut rng, version);
+            for (src, h) in &proj.force { if *src == format!("s{}", i) && !c.windows(h.len() + 1).any(|w| w[0] == b'#' && &w[1..] == h.as_bytes()) { c.extend_from_slice(format!(" #{}", h).as_bytes()); } }
+            ops.push(Op::W(format!("s{}", i), clock, c));
+        }
+        if !proj.force.is_empty() { ctx.count("with_orderonly_and_reported_header"); }
         for st in proj.steps.iter().filter(|s| s.rule == "rw") {
             clock += 1; ops.push(Op::W(st.impl_.last().unwrap().clone(), clock, b"cache".to_vec())); ctx.count("rw_steps");
         }
@@ -386,13 +406,26 @@ pub fn run(ctx: &mut Ctx) {
                 else { let i = rng.below(NSRC); ops.push(Op::W(format!("s{}", i), clock, src_content(&mut rng, version))); }
             }
             else if r < 62 { let i = rng.below(NHDR); ops.push(Op::W(format!("h{}", i), clock, format!("hdr{}v{}", i, version).into_bytes())); }
-            else if r < 66 { ops.push(Op::D(format!("h{}", rng.below(NHDR)))); }
+            else if r < 66 {
+                // prefer a header that some step also names as an order-only input (a discovered
+                // dependency that is an ordering input as well must still only make the step dirty)
+                let oo: Vec<String> = proj.steps.iter().flat_map(|s| s.oo.iter().filter(|x| x.starts_with('h')).cloned().collect::<Vec<_>>()).collect();
+                if !oo.is_empty() && rng.chance(1, 2) { ops.push(Op::D(oo[rng.below(oo.len())].clone())); }
+                else { ops.push(Op::D(format!("h{}", rng.below(NHDR)))); }
+            }
             else if r < 69 { ops.push(Op::D(format!("s{}", rng.below(NSRC)))); }
             else if r < 77 { let outs = proj.all_outs(); if !outs.is_empty() { ops.push(Op::D(outs[rng.below(outs.len())].clone())); } }
             else if r < 82 { let outs = proj.all_outs(); if !outs.is_empty() { ops.push(Op::W(outs[rng.below(outs.len())].clone(), clock, b"tampered".to_vec())); } }
             else {
                 // manifest edit
-                match rng.below(8) {
+                match rng.below(11) {
+                    8 | 9 | 10 => {
+                        // a new step that names a header explicitly, placed first or last: headers so far
+                        // known only from depfiles/the log now get their ids from the manifest
+                        let st = HStep { outs: vec![format!("x{}", version)], iouts: vec![], rule: "plain".into(),
+                            expl: vec![format!("h{}", rng.below(NHDR))], impl_: vec![], oo: vec![], val: vec![], flag: "-x".into() };
+                        if rng.chance(1, 2) { proj.steps.insert(0, st); } else { proj.steps.push(st); }
+                    }
                     7 => {
                         // drop the last explicit input of a step that has several ($in and rspfile content shrink)
                         let cands: Vec<usize> = (0..proj.steps.len()).filter(|i| proj.steps[*i].expl.len() > 1).collect();
